@@ -776,3 +776,70 @@ Section IrSound.
     intros _. eapply conf_ir_sound; eauto.
   Qed.
 End IrSound.
+
+(** ** 5. the literal path of an item-eligible entry is the LOCATION of its item in the module:
+    [root :: <entry path>], i.e. the key under which [conforms] looks the item up *)
+Definition plain_tok (t : string) : Prop :=
+  tok_open t = false /\ tok_close t = false /\ String.eqb t "<" = false.
+
+Lemma ident_plain t : ident_lexb t = true -> plain_tok t.
+Proof.
+  intros H. unfold plain_tok, tok_open, tok_close.
+  assert (K : forall x, ident_lexb x = false -> String.eqb t x = false).
+  { intros x Hx. destruct (String.eqb t x) eqn:E; [|reflexivity]. apply String.eqb_eq in E. congruence. }
+  rewrite !K by reflexivity. repeat split; reflexivity.
+Qed.
+
+Lemma omit_go_plain : forall l x, Forall plain_tok l ->
+  omit_generics_go 0 (l ++ x) = l ++ omit_generics_go 0 x.
+Proof.
+  induction l as [|t l IH]; intros x H; [reflexivity|]. inversion H as [|t' l' (H1 & H2 & H3) Hl]; subst.
+  cbn [app omit_generics_go]. rewrite H1, H2, H3. cbn [andb]. f_equal. apply IH. exact Hl.
+Qed.
+
+Lemma rel_path_plain root path :
+  ident_lexb root = true -> forallb ident_lexb path = true -> Forall plain_tok (rel_path (root :: path)).
+Proof.
+  intros Hr Hp. cbn [rel_path]. constructor; [apply ident_plain; exact Hr|].
+  induction path as [|x path IH]; cbn [flat_map app]; [constructor|].
+  cbn [forallb] in Hp. apply andb_prop in Hp as [Hx Hp].
+  assert (Hc : plain_tok ":") by (repeat split; reflexivity).
+  constructor; [exact Hc|]. constructor; [exact Hc|]. constructor; [apply ident_plain; exact Hx|apply IH; exact Hp].
+Qed.
+
+Theorem eligible_literal_path r s id X p :
+  resolve r id = Some X -> item_eligible s X = true -> path_ident (t_path X) <> Some "Cow"%string ->
+  ident_lexb (s_root s) = true ->
+  path_omit_generics r s id = Ok p -> p = rel_path (s_root s :: t_path X).
+Proof.
+  intros Hres He Hcow Hroot Hp. unfold path_omit_generics in Hp.
+  apply bind_ok in Hp as (t & Ht & Hp). apply bind_ok in Hp as (toks & Htoks & Hp). inversion Hp; subst p. clear Hp.
+  unfold resolve_type_path, fuel0 in Ht. rewrite FidelityBase.resolve_rec_S in Ht.
+  unfold find_parent in Ht. cbn [find] in Ht.
+  assert (Hrt : resolve_type r id = Ok X) by (unfold resolve_type; rewrite Hres; reflexivity).
+  rewrite Hrt in Ht. cbn [bind] in Ht.
+  rewrite FidelityBase.cow_case_if, (FidelityBase.is_cow_false _ Hcow) in Ht. cbn [bind] in Ht.
+  apply bind_ok in Ht as (params & Hparams & Ht).
+  unfold item_eligible in He. apply andb_prop in He as [He Hns]. apply andb_prop in He as [Hcv Hsub].
+  apply negb_true_iff in Hsub.
+  assert (Ht' : type_path_maybe_with_substitutes s (t_path X) params = Ok t).
+  { destruct (t_def X); cbn in Hcv; try discriminate; exact Ht. }
+  clear Ht. unfold type_path_maybe_with_substitutes, for_path_with_params in Ht'.
+  assert (Hpt : subs_get (s_subs s) (t_path X) = None /\ exists a0 a1 pl, t_path X = a0 :: a1 :: pl).
+  { unfold subs_contains in Hsub. destruct (t_path X) as [|a0 [|a1 pl]]; try discriminate Hns.
+    split; [|eauto]. destruct (subs_get (s_subs s) (a0 :: a1 :: pl)); [discriminate|reflexivity]. }
+  destruct Hpt as (Hsg & a0 & a1 & pl & Hpath). rewrite Hsg in Ht'.
+  apply bind_ok in Ht' as (ptoks & Hpk & Ht'). unfold from_type_def_path in Hpk. rewrite Hpath in Hpk.
+  destruct (forallb ident_lexb (a0 :: a1 :: pl)) eqn:Hlex; [|discriminate].
+  assert (Hptoks : ptoks = rel_path (s_root s :: t_path X)) by (rewrite Hpath; congruence).
+  subst ptoks.
+  assert (Hteq : t = TPath (rel_path (s_root s :: t_path X)) params) by congruence.
+  subst t. clear Hpk Ht'. rewrite <- Hpath in Hlex.
+  pose proof (rel_path_plain (s_root s) (t_path X) Hroot Hlex) as Hplain.
+  remember (rel_path (s_root s :: t_path X)) as P eqn:EP. clear EP.
+  cbn [tp_tokens] in Htoks. apply bind_ok in Htoks as (ps & _ & Htoks).
+  unfold omit_generics. destruct ps as [|p0 ps]; injection Htoks as <-.
+  - pose proof (omit_go_plain _ [] Hplain) as K. cbn [omit_generics_go] in K.
+    rewrite !List.app_nil_r in K. exact K.
+  - rewrite (omit_go_plain _ _ Hplain). cbn. apply List.app_nil_r.
+Qed.
